@@ -7,7 +7,7 @@
     any non-decreasing clock that avoids the value 0 (0 means "timer off" in the implementation). *)
 From Coq Require Import ZArith List Lia Bool.
 From RecordUpdate Require Import RecordSet.
-From Nice Require Import Base.Bytes Ptcp.PtcpModel Ptcp.PtcpHoare.
+From Nice Require Import Base.Bytes Ptcp.PtcpModel Ptcp.C09Hoare.
 Import ListNotations.
 Import RecordSetNotations.
 Local Open Scope Z_scope.
@@ -49,21 +49,21 @@ Ltac go := wp_inv (TI now) solveTI.
 
 Lemma set_state_TI n : pres I (set_state n).
 Proof. intros s ev Hi. unfold set_state. go. Qed.
-Hint Resolve set_state_TI : ptcp_pres.
+Hint Resolve set_state_TI : c09_pres.
 
 Lemma adjustMTU_TI : pres I adjustMTU.
 Proof. intros s ev Hi. unfold adjustMTU. go. Qed.
-Hint Resolve adjustMTU_TI : ptcp_pres.
+Hint Resolve adjustMTU_TI : c09_pres.
 
 Lemma set_state_established_TI : pres I set_state_established.
 Proof. intros s ev Hi. unfold set_state_established. go. Qed.
 Lemma set_state_closed_TI e : pres I (set_state_closed e).
 Proof. intros s ev Hi. unfold set_state_closed. go. Qed.
-Hint Resolve set_state_established_TI set_state_closed_TI : ptcp_pres.
+Hint Resolve set_state_established_TI set_state_closed_TI : c09_pres.
 
 Lemma queue_TI d f : pres I (queue d f).
 Proof. intros s ev Hi. unfold queue. go. Qed.
-Hint Resolve queue_TI : ptcp_pres.
+Hint Resolve queue_TI : c09_pres.
 
 Lemma queue_connect_message_TI : pres I queue_connect_message.
 Proof. intros s ev Hi. unfold queue_connect_message. go. Qed.
@@ -71,11 +71,11 @@ Lemma queue_fin_message_TI : pres I queue_fin_message.
 Proof. intros s ev Hi. unfold queue_fin_message. go. Qed.
 Lemma queue_rst_message_TI : pres I queue_rst_message.
 Proof. intros s ev Hi. unfold queue_rst_message. go. Qed.
-Hint Resolve queue_connect_message_TI queue_fin_message_TI queue_rst_message_TI : ptcp_pres.
+Hint Resolve queue_connect_message_TI queue_fin_message_TI queue_rst_message_TI : c09_pres.
 
 Lemma packet_TI seq flags off ln : pres I (packet seq flags off ln now).
 Proof. intros s ev Hi. unfold packet. go. Qed.
-Hint Resolve packet_TI : ptcp_pres.
+Hint Resolve packet_TI : c09_pres.
 
 Lemma transmit_loop_TI fuel : forall i nT, pres I (transmit_loop fuel i nT now).
 Proof.
@@ -83,18 +83,18 @@ Proof.
   - apply wp_fault.
   - go.
 Qed.
-Hint Resolve transmit_loop_TI : ptcp_pres.
+Hint Resolve transmit_loop_TI : c09_pres.
 
 Lemma transmit_TI i : pres I (transmit i now).
 Proof. intros s ev Hi. unfold transmit. go. Qed.
-Hint Resolve transmit_TI : ptcp_pres.
+Hint Resolve transmit_TI : c09_pres.
 
 Lemma closedown_states_TI : pres I closedown_states.
 Proof. intros s ev Hi. unfold closedown_states. go. Qed.
-Hint Resolve closedown_states_TI : ptcp_pres.
+Hint Resolve closedown_states_TI : c09_pres.
 Lemma closedown_remote_TI e : pres I (closedown_remote e).
 Proof. intros s ev Hi. unfold closedown_remote. go. Qed.
-Hint Resolve closedown_remote_TI : ptcp_pres.
+Hint Resolve closedown_remote_TI : c09_pres.
 
 Lemma attempt_send_loop_TI fuel : forall sf, pres I (attempt_send_loop fuel sf now).
 Proof.
@@ -102,19 +102,19 @@ Proof.
   - apply wp_fault.
   - go.
 Qed.
-Hint Resolve attempt_send_loop_TI : ptcp_pres.
+Hint Resolve attempt_send_loop_TI : c09_pres.
 
 Lemma attempt_send_TI sf : pres I (attempt_send sf now).
 Proof. intros s ev Hi. unfold attempt_send. go. Qed.
-Hint Resolve attempt_send_TI : ptcp_pres.
+Hint Resolve attempt_send_TI : c09_pres.
 
 Lemma closedown_TI e l : pres I (closedown e l now).
 Proof. intros s ev Hi. unfold closedown. go. Qed.
-Hint Resolve closedown_TI : ptcp_pres.
+Hint Resolve closedown_TI : c09_pres.
 
 Lemma resize_receive_buffer_TI n : pres I (resize_receive_buffer n).
 Proof. intros s ev Hi. unfold resize_receive_buffer. go. Qed.
-Hint Resolve resize_receive_buffer_TI : ptcp_pres.
+Hint Resolve resize_receive_buffer_TI : c09_pres.
 
 Lemma apply_opts_TI fuel : forall d, pres I (apply_opts fuel d).
 Proof.
@@ -122,11 +122,11 @@ Proof.
   - go.
   - go.
 Qed.
-Hint Resolve apply_opts_TI : ptcp_pres.
+Hint Resolve apply_opts_TI : c09_pres.
 
 Lemma parse_options_TI d : pres I (parse_options d).
 Proof. intros s ev Hi. unfold parse_options. go. Qed.
-Hint Resolve parse_options_TI : ptcp_pres.
+Hint Resolve parse_options_TI : c09_pres.
 
 Lemma recover_rlist_TI fuel : forall sf, pres I (recover_rlist fuel sf).
 Proof.
@@ -134,10 +134,6 @@ Proof.
   - go.
   - go.
 Qed.
-Hint Resolve recover_rlist_TI : ptcp_pres.
-
-Lemma process_TI seg : pres I (process seg now).
-Proof. intros s ev Hi. unfold process. Time go. Qed.
-Hint Resolve process_TI : ptcp_pres.
+Hint Resolve recover_rlist_TI : c09_pres.
 
 End Pres.
